@@ -210,8 +210,8 @@ def h64(key):
 
 
 class Ctx:
-    MAX_REPLAYS = 20
-    MAX_PER_KIND = 3
+    MAX_REPLAYS = int(__import__("os").environ.get("VERIF_MAX_REPLAYS", "20"))
+    MAX_PER_KIND = int(__import__("os").environ.get("VERIF_MAX_PER_KIND", "3"))
 
     def __init__(self, pid, tier, seed, worker=0, nworkers=1):
         self.pid = pid
